@@ -142,4 +142,29 @@ pub fn run_c06(tier: &str, seed: u64, out: &mut dyn Write) {
             _ => { writeln!(out, "ctlser\tinstall:{}\tCOMPILE-ERR", nst).unwrap(); }
         }
     }
+    // the 16-bit length boundary, byte-exactly: install messages of 65524 / 65540 / 65556 bytes
+    // (two-instruction and one-instruction statements mixed) and change-program messages of
+    // 65510 / 65523 / 65536 / 65549 bytes
+    for (nst, one) in [(2044usize, 1usize), (2045, 0), (2045, 1), (2045, 2), (2046, 0)] {
+        let body = (0..nst).map(|i| format!("(:= Report.a (+ Report.a {}))", i)).chain((0..one).map(|i| format!("(:= Report.a {})", i))).collect::<Vec<_>>().join(" ");
+        let src = format!("(def (Report (volatile a 0))) (when true {} (report))", body);
+        let res = match catch(|| portus::lang::compile(src.as_bytes(), &[])) {
+            Some(Ok((bin, _))) => {
+                let m = install::Msg { sid: 0, program_uid: 9, num_events: bin.events.len() as u32, num_instrs: bin.instrs.len() as u32, instrs: bin };
+                match catch(|| serialize::serialize(&m)) {
+                    Some(Ok(b)) => format!("LEN{} HDR{}", b.len(), u16::from_le_bytes([b[2], b[3]])),
+                    Some(Err(_)) => "SERERR".to_string(), None => "SERPANIC".to_string() }
+            }
+            _ => "COMPILE-ERR".to_string(),
+        };
+        writeln!(out, "ctlser\tinstall:{}:{}\t{}", nst, one, res).unwrap();
+    }
+    for n in [5038usize, 5039, 5040, 5041, 6000] {
+        let ups: Vec<(Reg, u64)> = (0..n).map(|i| (regs_ok[i % regs_ok.len()].clone(), i as u64)).collect();
+        let cp = changeprog::Msg { sid: 1, program_uid: 9, num_fields: n as u32, fields: ups };
+        let res = match catch(|| serialize::serialize(&cp)) {
+            Some(Ok(b)) => format!("LEN{} HDR{}", b.len(), u16::from_le_bytes([b[2], b[3]])),
+            Some(Err(_)) => "SERERR".to_string(), None => "SERPANIC".to_string() };
+        writeln!(out, "ctlser\tchangeprog:{}\t{}", n, res).unwrap();
+    }
 }
